@@ -41,8 +41,17 @@ def main():
     ap.add_argument("--jobs", type=int, default=3)
     ap.add_argument("--only")
     ap.add_argument("--tier", default="quick")
+    ap.add_argument("--shuffle", help="seed: run in a random order (a run that is cut short is then a uniform sample)")
+    ap.add_argument("--skip", help="file with the output of an earlier run: changes already reported there are skipped")
     a = ap.parse_args()
     dirs = sorted(glob.glob(os.path.join(HERE, "seeded", "C*")))
+    if a.skip and os.path.exists(a.skip):
+        done = {l.split()[0] for l in open(a.skip) if l.strip() and l.split()[0][:1] == "C"}
+        dirs = [d for d in dirs if os.path.basename(d) not in done]
+    if a.shuffle:
+        import random
+
+        random.Random(a.shuffle).shuffle(dirs)
     if a.only:
         keep = set(a.only.split(","))
         dirs = [d for d in dirs if os.path.basename(d).split("-")[0] in keep or os.path.basename(d) in keep]
